@@ -59,7 +59,7 @@ def helper_resolver(f: FunctionInfo):
                     target = m
                     skip_self = not m.is_static
         elif isinstance(fn, ast.Name):
-            m = f.module.functions.get(fn.id)
+            m = f.nested.get(fn.id) or (f.parent.nested.get(fn.id) if f.parent is not None else None) or f.module.functions.get(fn.id)
             if m is not None:
                 target = m
         if target is None or target is f or target.fq in _baseline():
